@@ -186,14 +186,17 @@ int main(int argc, char ** argv) {
   std::vector<std::string> samples;
   bool failed = false; Case fail_case; Report fail_rep;
   struct timespec t0; clock_gettime(CLOCK_MONOTONIC, &t0);
-  bool budget_hit = false;
+  bool budget_hit = false; struct timespec tfail = t0; long shrink_s = 40;
 
   bool ok = rc::check("property holds on every generated case", [&](const Case & c) {
     if (!failed && budget_s > 0) {
       struct timespec t; clock_gettime(CLOCK_MONOTONIC, &t);
       if ((t.tv_sec - t0.tv_sec) + (t.tv_nsec - t0.tv_nsec) * 1e-9 > budget_s) { budget_hit = true; return; }
     }
-    if (failed && shrink_runs >= max_shrink) return;   // shrink budget used up: accept the current counterexample
+    if (failed) {   // shrink budget (runs and wall clock) used up: accept the current counterexample
+      struct timespec t; clock_gettime(CLOCK_MONOTONIC, &t);
+      if (shrink_runs >= max_shrink || (t.tv_sec - tfail.tv_sec) > shrink_s) return;
+    }
     bool want_text = !failed && (samples.size() < 6);
     Report r = run_case(c, want_text);
     if (!failed) {
@@ -209,7 +212,7 @@ int main(int argc, char ** argv) {
       }
     } else shrink_runs++;
     bool bad = (r.verdict == V_ORACLE || r.verdict == V_DEADLOCK || r.verdict == V_STUCK || r.verdict == V_CRASH || r.verdict < 0);
-    if (bad) { failed = true; fail_case = c; fail_rep = r; }
+    if (bad) { if (!failed) clock_gettime(CLOCK_MONOTONIC, &tfail); failed = true; fail_case = c; fail_rep = r; }
     RC_ASSERT(!bad);
   });
   (void)ok;
